@@ -24,7 +24,7 @@ RULE = ("random AMR leaf tilings (2-D and 3-D, 1-800 cells, 0-4 refinement level
         "faces: a point strictly inside cell c must show c's value and be unmasked, a point touching no cell must be "
         "masked, points on faces may show any touching cell or be masked; with dx given Plot.x must be the pixel-centre "
         "grid of the requested window; repeated under other thread counts and row permutations the arrays must agree "
-        "on all decided pixels.  non-trivial = >=1 pixel inside a cell and (>=1 masked pixel or >=2 distinct cells hit).")
+        "on all decided pixels; a few cases are rendered (plot=True): the QuadMesh array must be the returned data, axis limits +-dx/2 in dx's unit, labels carrying that unit.  non-trivial = >=1 pixel inside a cell and (>=1 masked pixel or >=2 distinct cells hit).")
 ASSUMPTIONS = [
     "u, v of letter / triple / normal orientations are read from osyris.plot.direction.get_direction (decided by C18)",
     "epsilon band 1e-9 (relative to cell size and coordinate magnitude) around cell faces",
@@ -376,7 +376,56 @@ def thin_map(case, r):
                     return
 
 
+def rendered(case, r):
+    """plot=True: the QuadMesh shows exactly the returned layer data, axis limits are +-dx/2 (dy/2) in dx's unit,
+    axis labels carry that unit."""
+    import matplotlib.pyplot as plt
+
+    case = dict(case, layers=[n for n in case["layers"] if n != "vec"] or ["scalar1"])
+    case["window"] = dict(case["window"], given=True)
+    m = meshes.build(case["mesh"])
+    dg = meshes.datagroup(m, osyris)
+    su = setup_map(case, m)
+    kw, (n, u, v) = call_kwargs(case, m, su)
+    kw["plot"] = True
+    layers = make_layers(case, dg)[:1]
+    p, exc = run_map(layers, kw)
+    try:
+        if exc is not None:
+            if isinstance(exc, RuntimeError):
+                r.label("legit_or_empty")
+                return
+            r.bad(["rendered", "raises", type(exc).__name__], repr(exc))
+            return
+        r.nontrivial()
+        ax = p.ax
+        qm = [c for c in ax.collections if type(c).__name__ == "QuadMesh"]
+        if len(qm) != 1:
+            r.bad(["rendered", "no-quadmesh"], f"{[type(c).__name__ for c in ax.collections]}")
+            return
+        arr = np.ma.asarray(qm[0].get_array())
+        data = p.layers[0]["data"]
+        if arr.size != data.size or not np.array_equal(np.ma.getmaskarray(arr).ravel(), np.ma.getmaskarray(data).ravel()) \
+                or not np.ma.allclose(arr.ravel(), data.ravel()):
+            r.bad(["rendered", "image-differs-from-data"], "QuadMesh array is not the returned layer data")
+            return
+        wu = case["window"]["unit"]
+        f = um.parse(case["mesh"]["pos_unit"])[0] / um.parse(wu)[0]
+        for nm, lim, width in (("x", ax.get_xlim(), su["dx"] * f), ("y", ax.get_ylim(), su["dy"] * f)):
+            if abs(lim[0] + 0.5 * width) > 1e-9 * width or abs(lim[1] - 0.5 * width) > 1e-9 * width:
+                r.bad(["rendered", "axis-limits", nm], f"{nm} limits {lim} for a window of {width!r} {wu}")
+                return
+        unit_txt = "[{:~}]".format(osyris.units(wu))
+        for nm, lab in (("x", ax.get_xlabel()), ("y", ax.get_ylabel())):
+            if unit_txt not in lab:
+                r.bad(["rendered", "axis-label-unit", nm], f"label {lab!r} does not carry {unit_txt}")
+                return
+    finally:
+        plt.close("all")
+
+
 def subs(ctx):
-    return [Sub("thin_map", thin_map, strategy=map_case_st(), quick=220, thorough=1500,
+    return [Sub("rendered", rendered, strategy=map_case_st(), quick=25, thorough=60),
+            Sub("thin_map", thin_map, strategy=map_case_st(), quick=220, thorough=1500,
                 required={"d2": 0.25, "d3": 0.25, "has_inside_pixels": 0.5, "ratio_<0.1": 0.06, "ratio_0.1-1": 0.1,
                           "ratio_1-10": 0.1, "ratio_>10": 0.06, "schedule_checked": 0.1})]
